@@ -29,3 +29,127 @@ SPECS["C16"] = dict(
         Q("order_p64", "c16_order.c", tier="thorough", defs={"PLMAX": 64}, unwind=66, bounds="3 arbitrary messages, payload size 0..64", timeout=1800, solver="kissat"),
     ],
 )
+
+THREAD_FLAGS = ["--no-standard-checks", "--unwinding-assertions", "--bounds-check", "--signed-overflow-check",
+                "--undefined-shift-check", "--div-by-zero-check"]
+SPIN = ["sync_thread_barrier.0", "sync_thread_barrier.1"]
+
+
+def c17(name, nt, uses, tier, spin=2, timeout=600, extra=None, solver="minisat"):
+    return Q(name, "c17_barrier.c", tier=tier, defs={"NT": nt, "USES": uses}, unwind=max(uses, nt) + 1,
+             unwindset={"sync_thread_barrier.0": spin, "sync_thread_barrier.1": spin}, spin_loops=SPIN,
+             flags=THREAD_FLAGS + (extra or []), native=False, timeout=timeout, solver=solver,
+             bounds="%d threads x %d consecutive barrier uses, all interleavings (SC%s); spin-wait loops unwound %d times, longer spins cut (stutter-equivalent)"
+             % (nt, uses, ", and x86-TSO" if extra else "", spin), cost=uses * nt * nt)
+
+
+SPECS["C17"] = dict(
+    level="model_checking",
+    encodes=["core/sync.c:sync_thread_barrier"],
+    assumptions=["CBMC thread encoding (partial orders over shared accesses), pointer checks off for thread harnesses (CBMC refuses them under concurrency)",
+                 "spin-wait cut: a failed spin iteration only reads shared memory, so executions with more failed iterations are stutter-equivalent to explored ones",
+                 "counterexamples of thread harnesses are not replayed natively (the solver's interleaving is reported as trace)"],
+    outside=["more than 3 threads", "more than 9 consecutive uses (periodicity of the 4-phase state is argued, not machine-checked)", "weak memory beyond x86-TSO"],
+    queries=[
+        c17("t2_u5", 2, 5, "quick"),
+        c17("t2_u9", 2, 9, "thorough", timeout=1800),
+        c17("t2_u5_tso", 2, 5, "thorough", extra=["--mm", "tso"], timeout=1800),
+        c17("t3_u5", 3, 5, "thorough", timeout=2400),
+        c17("t3_u2", 3, 2, "quick", timeout=600),
+    ],
+)
+
+
+def c12(name, func, tier, tot, blk, unwind, timeout=600, **kw):
+    return Q(name, "c12_buddy.c", tier=tier, func=func, defs={"VERIF_B_TOTAL_EXP": "%dU" % tot, "VERIF_B_BLOCK_EXP": "%dU" % blk},
+             unwind=unwind, timeout=timeout,
+             bounds="one real call from an arbitrary invariant-satisfying tree; arena 2^%d bytes, block 2^%d (%d leaves)" % (tot, blk, 1 << (tot - blk)), **kw)
+
+
+SPECS["C12"] = dict(
+    level="proof",
+    encodes=["mm/buddy/buddy.c:buddy_init", "buddy_malloc", "buddy_free", "buddy_best_effort_realloc",
+             "mm/buddy/multi.c:rs_malloc", "rs_calloc", "rs_realloc", "rs_free", "buddy_find_by_address"],
+    assumptions=["arena geometry shrunk through hook H1 (the code is parametric in B_TOTAL_EXP/B_BLOCK_EXP); the real 64 KiB arena is outside the claim",
+                 "inductive step: the pre-state is any tree satisfying the representation invariant in harness/buddy_inv.h; base case buddy_init"],
+    outside=["the real 64 KiB / 64-byte geometry (1024 leaves: no verdict)", "more than 3 arenas"],
+    queries=[
+        c12("init_32", "harness_init", "quick", 11, 6, 66),
+        c12("malloc_32", "harness_malloc", "quick", 11, 6, 66),
+        c12("free_32", "harness_free", "quick", 11, 6, 66),
+        c12("free_single_32", "harness_free_single", "quick", 11, 6, 66),
+        c12("realloc_probe_32", "harness_realloc_probe", "quick", 11, 6, 66),
+        c12("malloc_64", "harness_malloc", "thorough", 12, 6, 130, timeout=1800),
+        c12("free_64", "harness_free", "thorough", 12, 6, 130, timeout=1800),
+        c12("malloc_16x32", "harness_malloc", "thorough", 9, 5, 34, timeout=900),
+        c12("free_16x32", "harness_free", "thorough", 9, 5, 34, timeout=900),
+    ],
+)
+
+
+def c14(name, func, tier, maxlp, maxn, cn=None, ct=None, timeout=600, **kw):
+    defs = {"MAXLP": maxlp, "MAXN": maxn}
+    b = "LPs <= %d, ranks/threads <= %d" % (maxlp, maxn)
+    if cn is not None:
+        defs["CN"] = cn
+        b += ", ranks = %d" % cn
+    if ct is not None:
+        defs["CT"] = ct
+        b += ", threads = %d" % ct
+    return Q(name, "c14_partition.c", tier=tier, func=func, defs=defs, unwind=maxlp + 2, timeout=timeout, bounds=b + "; all other values symbolic", **kw)
+
+
+SPECS["C14"] = dict(
+    level="model_checking",
+    encodes=["lp/lp.c:partition_start", "lp/lp.h:lid_to_nid", "lid_to_rid", "lp/lp.c:lp_init", "lp_fini", "lp_global_init (arithmetic)"],
+    assumptions=["ranks <= LPs (a rank without LPs is outside the documented use)", "lp*n_nodes does not overflow 64 bits",
+                 "lifecycle harness: per-LP constructors are recording stubs; the lps base pointer is not shifted (the real code forms lps - lid_node_first)"],
+    outside=["more than 64 LPs (symbolic 64-bit multiply-then-divide: no verdict beyond)", "ranks > LPs"],
+    queries=[
+        c14("node_16_4", "harness_node", "quick", 16, 4, cost=3),
+        c14("thread_16_t2", "harness_thread", "quick", 16, 4, ct=2, cost=3),
+        c14("thread_16_t3", "harness_thread", "quick", 16, 4, ct=3, cost=5),
+        c14("thread_16_t4", "harness_thread", "quick", 16, 4, ct=4, cost=6),
+        c14("thread_16_t1", "harness_thread", "quick", 16, 4, ct=1),
+        c14("life_5_n2t2", "harness_lifecycle", "quick", 5, 4, cn=2, ct=2, cost=6),
+        c14("life_8_n2t3", "harness_lifecycle", "thorough", 8, 4, cn=2, ct=3, timeout=1800, mem_gb=20),
+        c14("life_8_n1t2", "harness_lifecycle", "thorough", 8, 4, cn=1, ct=2, timeout=1800, mem_gb=20),
+        c14("life_8_n3t2", "harness_lifecycle", "thorough", 8, 4, cn=3, ct=2, timeout=1800, mem_gb=20),
+    ] + [c14("node_64_n%d" % n, "harness_node", "thorough", 64, 8, cn=n, timeout=1800, solver="kissat") for n in range(1, 9)]
+      + [c14("thread_32_t%d" % t, "harness_thread", "thorough", 32, 8, ct=t, timeout=1800, solver="kissat") for t in range(1, 9)],
+)
+
+
+def c18(name, func, tier, defs=None, contract=False, timeout=600, solver="minisat", spin=None, **kw):
+    d = dict(defs or {})
+    q = Q(name, "c18_random.c", tier=tier, func=func, defs=d, unwind=7, timeout=timeout, solver=solver, **kw)
+    if contract:
+        q["instrument"] = ["--replace-calls", "Random:Random_contract"]
+        q["native"] = False
+    if spin:
+        q["spin_loops"] = spin
+    return q
+
+
+SPECS["C18"] = dict(
+    level="model_checking",
+    encodes=["lib/random/random.c:Random", "RandomU64", "RandomRange", "RandomRangeNonUniform", "Poisson", "Gamma", "Zipf",
+             "lib/random/xoroshiro.h:random_u64"],
+    assumptions=["libm log/exp/pow are contract stubs (range/sign/monotonicity facts of IEEE libm); floor/sqrt are CBMC built-ins",
+                 "Poisson/Gamma/Zipf harnesses link a contract stub of Random() (value in [0, 1-2^-53], generator advanced) discharged by the Random() query itself",
+                 "rejection loops (Gamma ia>=6, Zipf) are unwound once: only accepted samples are checked, rejecting paths are cut",
+                 "documented argument domain: 0 <= min <= max, range width below the stated bound, x >= 0, skew in (1,64], limit >= 1, 0 <= mean <= 1e300"],
+    outside=["RandomRange widths >= 2^16 (no verdict)", "Gamma(ia >= 6) (no verdict within budget)", "Normal()", "statistical quality", "negative min"],
+    queries=[
+        c18("random", "harness_random", "quick", bounds="all 2^256 generator states (raw output over all 2^64 values)", cost=3),
+        c18("u64", "harness_u64", "quick", bounds="all 2^256 generator states"),
+        c18("range_w1024", "harness_range", "quick", defs={"RANGE_W": 1024}, bounds="all generator states, 0 <= min <= max, max-min < 2^10", cost=3),
+        c18("range_nu_w256", "harness_range_nu", "quick", defs={"RANGE_W": 256}, bounds="all generator states, x < 2^8, 0 <= min <= max, max-min < 2^8", cost=3),
+        c18("poisson", "harness_poisson", "quick", contract=True, bounds="all generator states; Random() by contract; 0 <= mean <= 1e300"),
+        c18("gamma_le1", "harness_gamma_small", "quick", defs={"GAMMA_MAX": 1}, contract=True, solver="cadical", bounds="Gamma(ia), ia <= 1; Random() by contract", cost=4),
+        c18("gamma_le5", "harness_gamma_small", "thorough", defs={"GAMMA_MAX": 5}, contract=True, solver="cadical", timeout=2400, mem_gb=12, bounds="Gamma(ia), ia <= 5; Random() by contract", replaces="gamma_le1"),
+        c18("zipf", "harness_zipf", "quick", contract=True, solver="cadical", spin=["Zipf.0"], bounds="1 < skew <= 64, limit >= 1, first accepted sample; Random() by contract", cost=6),
+        c18("range_w65536", "harness_range", "thorough", defs={"RANGE_W": 65536}, solver="kissat", timeout=2400, bounds="all generator states, max-min < 2^16"),
+        c18("range_nu_w1024", "harness_range_nu", "thorough", defs={"RANGE_W": 1024}, solver="kissat", timeout=2400, bounds="all generator states, x < 2^10, max-min < 2^10"),
+    ],
+)
